@@ -49,11 +49,16 @@ fn main() {
                 let prog = g.program(&doc);
                 let rules = render::render_file(&prog);
                 let data = val::to_json_text(&doc);
-                let mut obs = exec::observe(&rules, &data, false);
-                if obs["kind"] == "ok" {
-                    let t = exec::status_tree(&obs["tree"]);
-                    obs["tree"] = t;
-                }
+                let obs = if m.get("rtree").map(|v| v == "1").unwrap_or(false) {
+                    exec::observe_with_rtree(&rules, &data)
+                } else {
+                    let mut obs = exec::observe(&rules, &data, false);
+                    if obs["kind"] == "ok" {
+                        let t = exec::status_tree(&obs["tree"]);
+                        obs["tree"] = t;
+                    }
+                    obs
+                };
                 let line = json!({"i": i + 1, "prog": prog, "doc": doc, "obs": obs});
                 writeln!(f, "{}", line).unwrap();
             }
@@ -134,6 +139,41 @@ fn main() {
                 j["i"] = json!(1);
                 println!("{}", j);
             }
+        }
+        "replay-cnf" => {
+            let tables: J = serde_json::from_str(&std::fs::read_to_string(m.get("tables").expect("--tables")).unwrap()).unwrap();
+            let cases: Vec<String> = std::fs::read_to_string(m.get("cases").expect("--cases")).unwrap().lines().map(|l| l.to_string()).collect();
+            let threads: usize = m.get("threads").and_then(|s| s.parse().ok()).unwrap_or(8);
+            let out = m.get("out").expect("--out").clone();
+            let chunk = (cases.len() + threads - 1) / threads.max(1);
+            let tables = std::sync::Arc::new(tables);
+            let cases = std::sync::Arc::new(cases);
+            let mut hs = Vec::new();
+            for t in 0..threads {
+                let tables = tables.clone();
+                let cases = cases.clone();
+                hs.push(std::thread::spawn(move || {
+                    let lo = (t * chunk).min(cases.len());
+                    let hi = ((t + 1) * chunk).min(cases.len());
+                    let mut mism: Vec<J> = Vec::new();
+                    for i in lo..hi {
+                        let c: J = serde_json::from_str(&cases[i]).unwrap();
+                        if let Some(x) = gv::cnf::replay_case(&tables, &c) {
+                            mism.push(x);
+                        }
+                    }
+                    mism
+                }));
+            }
+            let mut f = std::io::BufWriter::new(std::fs::File::create(&out).unwrap());
+            let mut nm = 0;
+            for h in hs {
+                for x in h.join().unwrap() {
+                    nm += 1;
+                    writeln!(f, "{}", x).unwrap();
+                }
+            }
+            println!("{}", json!({"cases": cases.len(), "evaluations": cases.len(), "mismatches": nm}));
         }
         "replay-e1" => {
             // spec -> impl: execute TLC's E1 cases against the implementation
